@@ -431,6 +431,7 @@ class StmtMixin:
             d0 = sub.ev(ast.parse(lc.decreases, mode="eval").body, env).t
         c = self.truth(self.ev(st.test, env))
         if self.path.branch(c):
+            self.run_ghost(getattr(lc, "ghost_begin", []), env)
             frames = getattr(self, "loop_frames", None)
             if frames is None:
                 frames = self.loop_frames = []
